@@ -86,6 +86,20 @@ TEXT = {
 }
 
 
+# obligations added in round 11 (rules/ROBUSTNESS.md), appended to the level notes
+ROUND11 = {
+    'C02': " Round 11 added: no computed start may be stored to a task before the pass (calc / __prepare_tasks store None or the value itself); a recursion into a prerequisite may not be skipped on a sibling test.",
+    'C06': " Round 11 added: keys of the clone map are ids themselves (no str()/repr()/int() of an id), link lists are de-duplicated by object identity.",
+    'C07': " Round 11 added: an explicit work-list walk that clears summaries must extend, not replace, the list with the children.",
+    'C08': " Round 11 added: the fill starts from the start that the search found (not from the release date handed to the search); the default estimate applies only under `is None`.",
+    'C09': " Round 11 added: a summary's start/end is an extremum over all children, never one child chosen by position.",
+    'C14': " Round 11 added: the date test before the isolation diagnosis ranges over all outside predecessors (not one picked by next()); the clone never looks a detached task up by id; a strict comparison of day-truncated values for the future-end diagnosis is refuted.",
+    'C17': " Round 11 added: operator dunders overridden in calendar subclasses may not change or return an operand; start/end validation written on a difference must be exact (`.days > 0` is refuted); a resource that keeps `calendar.clone()` must get a copy with every field the capacity function reads.",
+    'C18': " Round 11 added: the keyword dict may not be rewritten with set()/frozenset() values before the filters run; truth-value comparisons in a filter decision may not depend on the kind of filter value.",
+    'C03': " Round 11 added: the capacity reported to the scheduler is the calendar's value (round()/ceil() of it is refuted); a capacity memo must be keyed by the whole date; rows() may not hand out a list stored on the report.",
+}
+
+
 def main():
     props = [json.loads(l) for l in open(os.path.join(HERE, 'properties.jsonl'))]
     import re
@@ -97,6 +111,7 @@ def main():
         pid = p['id']
         if pid in built and pid not in na_reasons:
             tech, note = TEXT[pid]
+            note += ROUND11.get(pid, '')
             checks.append({
                 'property_id': pid,
                 'quick_cmd': f"/venv/bin/python check.py {pid} --tier quick",
